@@ -41,7 +41,7 @@ def config_for(draw, scheme):
     else:
         cfg["param_identifier_size"] = draw(st.sampled_from(ID_SIZES))
     if scheme in ("CGKO06.SSE1", "CGKO06.SSE2"):
-        cfg["param_l"] = draw(st.sampled_from([16, 32, 48, 64]))  # wide keyword fields: the PRP halves exceed one digest
+        cfg["param_l"] = draw(st.sampled_from([16, 32, 64, 128]))  # wide keyword fields: the PRP halves exceed one digest
     if scheme == "CGKO06.SSE1":
         cfg["param_s"] = draw(st.sampled_from([128, 256, 512]))
         cfg["param_dictionary_size"] = draw(st.sampled_from([0, 3, 64]))
@@ -62,7 +62,8 @@ def st_case(draw, scheme):
             idx[draw(st.integers(0, len(idx) - 1))] = 0
         shape.append(idx)
     return {"scheme": scheme, "cfg": cfg, "shape": shape, "pool": pool, "content_seed": draw(st.integers(0, 2 ** 32)),
-            "kwlen": draw(st.integers(10, 24)), "seed": draw(st.integers(0, 2 ** 48))}
+            "kwlen": draw(st.integers(8, 12)) if (cfg.get("param_l", 0) >= 64 and scheme.startswith("CGKO06") and draw(st.booleans()))
+            else draw(st.integers(10, 24)), "seed": draw(st.integers(0, 2 ** 48))}
 
 
 def build_content(case):
